@@ -103,7 +103,7 @@ def corruptions():
     add("bye: reason slice offset", "bye", ["C04", "C09"], op_is("parse", kind="bye"), lambda e: e["res"]["view"]["reason"].__setitem__("o", e["res"]["view"]["reason"]["o"] + 1))
     add("bye: padding accessor", "bye", ["C04", "C08"], op_is("parse", kind="bye"), lambda e: e["res"]["view"]["hdr"].__setitem__("padding", 8))
     add("bye: padding trailer byte", "bye", ["C07", "C20"], op_is("write_into"), lambda e: e["out"].__setitem__(e["res"]["n"] - 1, 8))
-    add("bye: get_padding", "bye", ["C20", "C14"], op_is("get_padding"), lambda e: e["res"].__setitem__("n", -1))
+    add("bye: get_padding", "bye", ["C20", "C14"], op_is("get_padding"), lambda e: e["res"].__setitem__("n", 8))
     add("sdes: item value offset", "sdes", ["C03", "C10"], op_is("parse", kind="sdes"),
         lambda e: e["res"]["view"]["chunks"][0]["items"][1]["value"].__setitem__("o", e["res"]["view"]["chunks"][0]["items"][1]["value"]["o"] - 1))
     add("sdes: chunk length", "sdes", ["C10"], op_is("parse", kind="sdes"), lambda e: e["res"]["view"]["chunks"][0].__setitem__("length", 12))
